@@ -141,6 +141,10 @@ def apply_op(m, op, f, alt):
                 "scaley": "scale_y", "rotate": "rotate", "skew": "skew", "skewx": "skew_x", "skewy": "skew_y", "scale_at": "scale",
                 "skewx_at": "skew_x", "skewy_at": "skew_y"}[name]
         args = [angle_obj(a) for a in angs] + n
+        if alt == 2 and not name.endswith("_at") and not (name == "rotate" and n):
+            # the elementary matrix from the class constructor, composed by multiplication (A * B = A first, then B)
+            e = getattr(svg.Matrix, meth)(*args)
+            return e * m if op == "pre" else m * e
         getattr(m, op + "_" + meth)(*args)
         return m
     vals = [float(rat(x)) for x in f[1]] if f else []
@@ -205,7 +209,7 @@ def check_case(case):
         for x in dis:
             x["functions"] = names
     else:
-        for alt in (False, True):
+        for alt in (False, True, 2):
             try:
                 m = svg.Matrix()
                 for op, f in hist:
@@ -220,6 +224,18 @@ def check_case(case):
                 p = svg.Point(3, -7) * m
                 if abs(p.x - px) > 1e-9 * max(1, abs(px)) or abs(p.y - py) > 1e-9 * max(1, abs(py)):
                     d.append({"clause": "PointImage", "detail": "Point(3,-7) * M after %s = %r, expected (%r, %r)" % (hist, p, px, py)})
+                if alt == 2:
+                    # the other ways of applying a matrix to a point, and back through the inverse
+                    tol = 1e-9 * max(1, abs(px), abs(py))
+                    for nm, q in (("point_in_matrix_space", m.point_in_matrix_space((3, -7))), ("transform_point", m.transform_point([3, -7])),
+                                  ("Point *= M", svg.Point(3, -7).__imul__(m))):
+                        if abs(q[0] - px) > tol or abs(q[1] - py) > tol:
+                            d.append({"clause": "PointImage", "detail": "%s after %s = %r, expected (%r, %r)" % (nm, hist, q, px, py)})
+                    det = m.a * m.d - m.b * m.c
+                    if abs(det) > 1e-6:
+                        q = m.point_in_inverse_space((px, py))
+                        if abs(q[0] - 3) > 1e-7 * max(1, abs(px), abs(py)) / abs(det) or abs(q[1] + 7) > 1e-7 * max(1, abs(px), abs(py)) / abs(det):
+                            d.append({"clause": "PointImage", "detail": "point_in_inverse_space of the image after %s = %r, expected (3, -7)" % (hist, q)})
             dis += d
         cls = "ops:" + ">".join("%s_%s" % (o, f[0] if f else "") for o, f in hist)
         for x in dis:
@@ -257,7 +273,7 @@ def run(tier, seed):
     finally:
         engine.cleanup(work)
     run.rule = ("cases = states of MC_C04: transform lists (<= MaxLen functions from the instance table, 3 spellings each: canonical + 2 seeded) "
-                "and Matrix operation histories (2 API variants each); distinct = sequence of (function name, arity) / operations; non-trivial = length >= 2")
+                "and Matrix operation histories (3 API variants each: in-place pre_/post_ methods, operators, class constructors composed by multiplication); distinct = sequence of (function name, arity) / operations; non-trivial = length >= 2")
     run.assumptions = ["angles are given by exact (cos, sin); their decimal spelling carries ~1e-16 relative error, tolerance 1e-11",
                        "length units limited to px/in/pt/pc at ppi 96 (mm/cm belong to C12)"]
     return run.finish()
